@@ -550,11 +550,15 @@ func (e *escaper) computeOutCtx(c context, t *template.Template) context {
 		// Use c1 as the error context if neither assumption worked.
 	}
 	if !ok && c1.state != stateError {
-		return context{
+		c1 = context{
 			state: stateError,
 			err:   errorf(ErrOutputContext, t.Tree.Root, 0, "cannot compute output context for template %s", t.Name()),
 		}
 	}
+	// Record the computed output context for later calls of t. Until now e.output held the
+	// output context that escapeTemplateBody assumed for recursive calls, which is t's input
+	// context unless the second attempt above was needed.
+	e.output[t.Name()] = c1
 	return c1
 }
 
